@@ -9,7 +9,7 @@ Definition W_base : hop :=
   HTxn [OGetLabel 0; OCreateNode 1 0; OCreateNode 2 0; OCreateNode 3 0; OGetLabel 10] true.
 
 (* spec-side dump of a history, names resolved by the model's interner *)
-Definition spec_dump (h : list hop) : dump := g_dump (run h).(interner) (run h).(vecs) (spec h).
+Definition spec_dump (h : list hop) : dump := g_dump (run h).(interner) (m_vec_ids (run h)) (spec h).
 
 (* K-C06-eprops: properties of a deleted relationship come back when the key is created again *)
 Definition h_eprops : list hop :=
